@@ -185,9 +185,10 @@ EXPORT errno_t _wcstombs_s_chk(size_t *restrict retvalp, char *restrict dest,
                                            (void *)dest, ESNULLP);
         return RCNEGATE(ESNULLP);
     }
-    if (unlikely(dest == (char *)src)) {
-        invoke_safe_str_constraint_handler(
-            "wcsrtombs_s: dest overlapping objects", (void *)dest, ESOVRLP);
+    /* src starts inside dest */
+    if (unlikely(dest && (const char *)src >= dest &&
+                 (const char *)src < dest + dmax)) {
+        handle_error(dest, dmax, "wcstombs_s: overlapping objects", ESOVRLP);
         return RCNEGATE(ESOVRLP);
     }
 
